@@ -566,7 +566,39 @@ def _service_discipline(ctx):
                    construct='freed address forgotten')
 
 
+def _runtime_release_owner(ctx):
+    """C14.2: only the owner releases.  The endpoint-spec manager lets a
+    caller leave the owner out (node services drop their own spec that way,
+    by a name nobody else uses); the container runtime may not: its
+    clean-up runs for an instance name that a newer container of the same
+    instance may already use, so every unlink_all of the runtime package
+    names the container as owner."""
+    ctx.index.load_all()
+    sites = 0
+    for mod in list(ctx.index.modules.values()):
+        if not mod.name.startswith('treadmill.runtime') or \
+                'unlink_all' not in mod.source:
+            continue
+        for func in mod.live_functions():
+            for call in K.calls(func.node):
+                if not K.is_meth(call, 'unlink_all'):
+                    continue
+                sites += 1
+                owner = K.kwarg(call, 'owner')
+                if owner is None and len(call.args) >= 4:
+                    owner = call.args[3]
+                ok = owner is not None and not (
+                    isinstance(owner, ast.Constant) and owner.value is None)
+                ctx.ob('C14.2', func, call, ok,
+                       'the container runtime releases endpoint specs only '
+                       'as their owner (unlink_all(..., owner=<container>))',
+                       construct='runtime unlink_all names the owner')
+    ctx.require(sites >= 1, 'unlink_all call in the runtime package',
+                rule='C14.2')
+
+
 def check(ctx):
+    _runtime_release_owner(ctx)
     vip, rule, epm = _managers(ctx)
     _discipline(ctx, vip, rule, epm)
     _service_discipline(ctx)
